@@ -228,6 +228,10 @@ def isHexDigit (c : Char) : Bool := (hexVal? c).isSome
 def parseDec (s : List Char) : Option Nat :=
   if s.isEmpty || !s.all isDigit then none else some (Nat.ofDigitChars 10 s 0)
 
+/-- `_THRESHOLD.fullmatch` (`[0-9]{1,10}`) then `int()` -/
+def parseThreshold (s : List Char) : Option Nat :=
+  if s.length > THRESHOLD_MAX_DIGITS then none else parseDec s
+
 def hardOf (c : Char) : Option Hard :=
   if c = 'h' then some .h else if c = '\'' then some .apos else none
 
@@ -235,6 +239,8 @@ def hardOf (c : Char) : Option Hard :=
 def stepOf (s : List Char) : P (Nat × Option Hard) :=
   let hd := s.getLast?.bind hardOf
   let number := if hd.isSome then s.dropLast else s
+  -- `int(number)` inside `try … except ValueError`: CPython refuses more than 4300 digits, zeros included
+  if number.length > INT_MAX_STR_DIGITS then .error .value else
   match parseDec number with
   | none => .error .value
   | some v =>
@@ -395,7 +401,7 @@ def oneArg : List (List Char) → P (List Char)
 def parseMultiArgs (o : KeyOracle) (xOnly compressed musigOk : Bool) (args : List (List Char)) : P (Nat × List Key) :=
   match args with
   | t :: k :: ks =>
-    match parseDec t with
+    match parseThreshold t with
     | none => .error .value
     | some thr =>
       match mapP (parseKey o xOnly compressed musigOk) (k :: ks) with
